@@ -2417,3 +2417,161 @@ def ob_capacity_e2e(ctx, k, shape, closed=True):
             res.status, res.detail = 'inconclusive', f'vacuous: success={saw_ok} failure={saw_fail}'
     res.time = time.time() - t0
     return res
+
+
+# ---------------------------------------------------------------------------------------------------------------------
+# C15: the work distribution in front of the reducer
+
+def ob_evaluate_all(ctx, n_routes, n_jobs):
+    """C15: `PositionInsertionEvaluator::evaluate_all` (real MIR incl. both closures and `choose_best_result`) under the
+    documented rayon contract made symbolic: `fold_reduce(source, identity, fold, reduce)` = the items of `source` are cut
+    into contiguous groups at ARBITRARY places (one nondeterministic bit per gap), each group is folded from `identity()`,
+    the group results are reduced from `identity()`; `cartesian_product(a, b)` = all pairs.  The per-pair step
+    `eval_job_insertion_in_route` is replaced by its proved specification (fold_step: min of the alternative and the
+    pair's own symbolic cost).  Claim: for every grouping every (route, job) pair is evaluated exactly once and the result
+    is the minimum over ALL pairs - i.e. the answer does not depend on how the work is split."""
+    name = f'evaluate_all[routes={n_routes},jobs={n_jobs}]'
+    res = Result(name)
+    res.bounds = (f'{n_routes} routes x {n_jobs} jobs, symbolic integer cost per (route, job) pair in [0,2^20], every contiguous grouping of the pairs '
+                  f'(2^{n_routes * n_jobs - 1} schedules), left-to-right reduction with identity leaf; BestResultSelector')
+    t0 = time.time()
+    fns = ctx.prog.find_method('PositionInsertionEvaluator', 'evaluate_all', trait='InsertionEvaluator')
+    sel = ctx.prog.find_method('BestResultSelector', 'select_insertion', trait='ResultSelector')
+    if len(fns) != 1 or len(sel) != 1:
+        raise Inconclusive('PositionInsertionEvaluator::evaluate_all / BestResultSelector::select_insertion not found')
+    s_order = ctx.layout.fields('insertions::InsertionSuccess')
+
+    def success(env, cost):
+        f = {name_: Opaque(name_) for name_ in s_order}
+        f['cost'] = env.struct('insertions::InsertionCost', data=VecV([cost]))
+        return EnumV('insertions::InsertionResult', 0, {0: [Agg('struct', [f[n_] for n_ in s_order], 'insertions::InsertionSuccess')]})
+
+    class Env(drivers.Env):
+        def override(self, engine, st, callee, args, dest_ty):
+            base = callee.split('::<')[0]
+            if base.endswith('cartesian_product'):
+                a, b = deref_all(args[0]), deref_all(args[1])
+                return VecV([Agg('tuple', [RefV(a, i), RefV(b, j)], '') for i in range(len(a.items)) for j in range(len(b.items))])
+            if base.endswith('current_num_threads'):
+                # not used by the unchanged code; a refactoring that sizes batches by the thread count gets every count 1..4
+                n = z3.Int('num_threads')
+                st.assumed.append(z3.And(n >= 1, n <= 4))
+                return IV(engine.choose(st, [(n == i, i) for i in range(1, 5)]), 'usize')
+            if base.endswith('fold_reduce'):
+                source, identity, fold, reduce = args
+                items = list(deref_all(source).items)
+                groups, cur = [], []
+                for i, it in enumerate(items):
+                    cur.append(it)
+                    if i + 1 < len(items) and engine.split_bool(st, z3.Bool(f'cut_after_{i}')):
+                        groups.append(cur)
+                        cur = []
+                groups.append(cur)
+                st.user_groups = [len(g) for g in groups]
+                partials = []
+                for g in groups:
+                    acc = engine.call_closure(st, identity, [])
+                    for it in g:
+                        acc = engine.call_closure(st, fold, [acc, it])
+                    partials.append(acc)
+                out = engine.call_closure(st, identity, [])
+                for p in partials:
+                    out = engine.call_closure(st, reduce, [out, p])
+                return out
+            if callee.endswith('eval_job_insertion_in_route'):
+                route, alt = deref_all(args[2]), args[4]
+                job = deref_all(self.field(deref_all(args[1]), 'evaluators::EvaluationContext', 'job'))
+                r = [i for i, x in enumerate(self.routes) if x is route]
+                j = [i for i, x in enumerate(self.jobs) if x is job]
+                if len(r) != 1 or len(j) != 1:
+                    raise Inconclusive('cannot identify the (route, job) pair of a fold step')
+                self.pairs.append((r[0], j[0]))
+                c = z3.Int(f'cost_r{r[0]}_j{j[0]}')
+                st.assumed.append(z3.And(c >= 0, c <= 2 ** 20))
+                if alt.variant() == 1:
+                    return success(self, FV(False, c))
+                if alt.variant() == 0:
+                    prev = self.field(alt.payload[0][0], 'insertions::InsertionSuccess', 'cost').fields[0].items[0]
+                    return success(self, FV(False, zs(z3.If(c < prev.v, c, prev.v))))
+                raise Inconclusive('symbolic alternative variant')
+            if callee.endswith('InsertionCost::max_value'):
+                return RefV(Cell(self.struct('insertions::InsertionCost', data=VecV([FV.max_value()]))), 0)
+            return super().override(engine, st, callee, args, dest_ty)
+
+        def dyn_call(self, engine, st, trait, method, args, dest_ty):
+            if trait == 'ResultSelector' and method == 'select_insertion':
+                return engine.exec_fn(st, sel[0], args)
+            if trait == 'ResultSelector' and method == 'select_cost':
+                return engine.exec_fn(st, self._trait_default('ResultSelector', 'select_cost'), args)
+            return super().dyn_call(engine, st, trait, method, args, dest_ty)
+
+    env = Env(ctx.prog, ctx.layout, 20)
+    eng = symex.Engine(ctx.prog, ctx.layout, env)
+
+    def body(st):
+        from symex import DynV
+        env.assumptions.clear()
+        env.pairs = []
+        env.routes = [Opaque(f'route{i}') for i in range(n_routes)]
+        env.jobs = [Opaque(f'job{i}') for i in range(n_jobs)]
+        po = ctx.layout.fields('domain::Problem')
+        problem = Agg('struct', [Opaque(f) if f != 'goal' else ArcV(Cell(Opaque('goal'))) for f in po], 'domain::Problem')
+        ictx = env.struct('context::InsertionContext', problem=ArcV(Cell(problem)), solution=Opaque('solution'), environment=Opaque('environment'))
+        evaluator = env.struct('selectors::PositionInsertionEvaluator', insertion_position=EnumV('evaluators::InsertionPosition', 0, {}))
+        jobs = VecV([RefV(Cell(j), 0) for j in env.jobs])
+        routes = VecV([RefV(Cell(r), 0) for r in env.routes])
+        # `x is route` identification needs the very objects: keep the cells' payloads
+        env.jobs = [r.load() for r in jobs.items]
+        env.routes = [r.load() for r in routes.items]
+        try:
+            return eng.exec_fn(st, fns[0], [RefV(Cell(evaluator), 0), RefV(Cell(ictx), 0), RefV(jobs, 0) if False else RefV(Cell(jobs), 0), RefV(Cell(routes), 0),
+                                           RefV(Cell(EnumV('selectors::LegSelection', 1, {})), 0), RefV(Cell(DynV('selector')), 0)])
+        finally:
+            st.user_pairs = list(env.pairs)
+
+    paths = eng.explore(body, max_paths=60000)
+    res.paths = len(paths)
+    res.functions |= eng.functions_used
+    all_pairs = [(r, j) for r in range(n_routes) for j in range(n_jobs)]
+    costs = [z3.Int(f'cost_r{r}_j{j}') for r, j in all_pairs]
+    dom = [z3.And(c >= 0, c <= 2 ** 20) for c in costs]
+    groupings = set()
+    for st, out in paths:
+        if out is None:
+            if not no_panic(ctx, res, env, st, dom, what=name):
+                break
+            continue
+        groupings.add(tuple(getattr(st, 'user_groups', ())))
+        seen = sorted(st.user_pairs)
+        if seen != all_pairs:
+            # structural part of the claim: find costs that expose the missing pair and let the native replay decide
+            missing = [p for p in all_pairs if p not in seen]
+            res.status = 'violated'
+            res.detail = f'{name}: grouping {getattr(st, "user_groups", None)}: pairs evaluated {seen} != all pairs (missing {missing}, duplicates {len(seen) - len(set(seen))})'
+            res.counterexample = {'what': res.detail}
+            table = [[(0 if (r, j) in missing else 10 + r + j) for j in range(n_jobs)] for r in range(n_routes)]
+            res.case = {'kind': 'fold_order', 'routes': n_routes, 'pair_costs': table, 'route_estimates': [0] * n_jobs, 'activity_estimates': [0] * n_jobs}
+            break
+        if out.variant() != 0:
+            res.status, res.detail = 'violated', f'{name}: result is not a Success although every pair has a cost'
+            break
+        rcost = env.field(out.payload[0][0], 'insertions::InsertionSuccess', 'cost').fields[0].items[0]
+        claim = z3.And(z3.Not(rcost.m), z3.Or(*[rcost.v == c for c in costs]), *[rcost.v <= c for c in costs])
+        if not decide_claim(ctx, res, env, st, claim, dom, what=f'{name}: grouping {getattr(st, "user_groups", None)}: result == minimum over all pairs'):
+            if res.status == 'violated' and res.model is not None:
+                m = res.model
+                table = [[_ev_int(m, z3.Int(f'cost_r{r}_j{j}')) for j in range(n_jobs)] for r in range(n_routes)]
+                res.case = {'kind': 'fold_order', 'routes': n_routes, 'pair_costs': table, 'route_estimates': [0] * n_jobs, 'activity_estimates': [0] * n_jobs}
+            break
+        if not no_panic(ctx, res, env, st, dom, what=name):
+            break
+    if res.status == 'holds':
+        res.witnesses = len(groupings)
+        plain = {g for g in groupings if sum(g) == n_routes * n_jobs}
+        if plain == groupings and len(groupings) != 2 ** (n_routes * n_jobs - 1):
+            # the source of the fold is the plain product: every cut pattern must have been explored
+            res.status, res.detail = 'inconclusive', f'only {len(groupings)} of {2 ** (n_routes * n_jobs - 1)} groupings explored'
+        elif len(groupings) < 2:
+            res.status, res.detail = 'inconclusive', 'vacuous: fewer than two groupings explored'
+    res.time = time.time() - t0
+    return res
